@@ -33,6 +33,9 @@ type c06Case struct {
 	Len   int    `json:"len,omitempty"`
 	// merged: profile entries (index*4 + 2*override + optional) and certificate entries into c06MergeAlphabet
 	Prof []int `json:"prof,omitempty"`
+	// rot / single: the entity also carries a version manipulation (0 = none, k+1 = .version k) - the
+	// extension list does not depend on the version number written into the certificate
+	Ver int `json:"ver,omitempty"`
 }
 
 var c06BodyLens = []int{1, 2, 3, 127, 128, 767, 768, 769, 1024, 65536}
@@ -148,6 +151,14 @@ func c06Enumerate(tier string, yield func(any)) {
 	// rotations of a 12-entry list: each kind once plus one repeat
 	for r := 0; r < 12; r++ {
 		yield(&c06Case{Kind: "rot", Rot: r})
+		for ver := 1; ver <= 5; ver++ {
+			yield(&c06Case{Kind: "rot", Rot: r, Ver: ver})
+		}
+	}
+	for k := 0; k < nk; k++ {
+		for ver := 1; ver <= 5; ver++ {
+			yield(&c06Case{Kind: "single", Ext: k, Crit: ver % 3, Body: c06NBodies() - 1 - ver%2*(c06NBodies()-3), Ver: ver})
+		}
 	}
 	// payload length sweep
 	maxB, maxT, step := 4096, 1100, 256
@@ -180,13 +191,13 @@ func c06Exec(x *engine.Ctx, cc any) {
 	c := cc.(*c06Case)
 	switch c.Kind {
 	case "single":
-		c06Run(x, []refcfg.Ext{c06Ext(c.Ext, c.Crit, c.Body)}, fmt.Sprintf("single %d %d %d", c.Ext, c.Crit, c.Body))
+		c06Run(x, []refcfg.Ext{c06Ext(c.Ext, c.Crit, c.Body)}, fmt.Sprintf("single %d %d %d v%d", c.Ext, c.Crit, c.Body, c.Ver), c.Ver)
 	case "list":
 		var l []refcfg.Ext
 		for _, ix := range c.List {
 			l = append(l, c06Ext(ix/3, ix%3, c06NBodies()-1))
 		}
-		c06Run(x, l, fmt.Sprintf("list %v", c.List))
+		c06Run(x, l, fmt.Sprintf("list %v", c.List), 0)
 	case "rot":
 		var base []refcfg.Ext
 		for k := range refcfg.AllKinds {
@@ -195,7 +206,7 @@ func c06Exec(x *engine.Ctx, cc any) {
 		rep := c06Ext(2, 2, 4) // repeated type: a second subjectAlternativeName, raw
 		base = append(base, rep)
 		l := append(append([]refcfg.Ext{}, base[c.Rot:]...), base[:c.Rot]...)
-		c06Run(x, l, fmt.Sprintf("rot %d", c.Rot))
+		c06Run(x, l, fmt.Sprintf("rot %d v%d", c.Rot, c.Ver), c.Ver)
 	case "merged":
 		c06Merged(x, c)
 	case "sweep":
@@ -257,8 +268,12 @@ func c06Merged(x *engine.Ctx, c *c06Case) {
 	x.Outcome("merged compared")
 }
 
-func c06Run(x *engine.Ctx, exts []refcfg.Ext, key string) {
+func c06Run(x *engine.Ctx, exts []refcfg.Ext, key string, ver int) {
 	cfg := &refcfg.CertCfg{Path: "ent.yaml", Subject: "CN=ext", KeyAlg: "P-224", Exts: exts, ExtsPresent: len(exts) == 0}
+	if ver > 0 {
+		v := int64(ver - 1)
+		cfg.Manip = &refcfg.Manip{Version: &v}
+	}
 	d := &Dir{Certs: []*refcfg.CertCfg{cfg}}
 	g := Generate(d, func(w *simfs.World) { w.Put("ent.pem", FixtureKeyPEM("P-224-0")) }, drive.Default)
 	x.Nontrivial(key)
@@ -396,7 +411,7 @@ func init() {
 	register(&engine.Check{
 		ID:          "C06",
 		Level:       "exploration",
-		Rule:        "11 extension kinds x critical {omitted,false,true} x body {raw !null, raw !empty, raw !binary of 1,2,3,127,128,767,768,769,1024,65536 bytes, simplest content}; every list of length 0 and 2 over kind x critical (33^2); all 12 rotations of a list holding each kind once plus a repeated type; the effective list under a profile: every profile list of length 1..2 over 4 entries (two SAN forms, EKU, a custom extension with the SAN OID) x override x optional against every certificate list of length 0..3 over the same entries (quick thins the largest block to a quarter); every !binary payload length 1..4096 (quick) / 1..65536 (thorough) at ParseConfig->Builder->Compile level and 1..1100 / 1..4096 through whole certificates; unique ids, signature value, public-key bits, authority key id and addProfessionInfo at the boundary lengths. Oracle: same list, order, OIDs, critical exactly as configured (absent in DER when false/omitted), raw bodies byte-identical. non-trivial = distinct case (payload lengths distinct by construction)",
+		Rule:        "11 extension kinds x critical {omitted,false,true} x body {raw !null, raw !empty, raw !binary of 1,2,3,127,128,767,768,769,1024,65536 bytes, simplest content}; every list of length 0 and 2 over kind x critical (33^2); all 12 rotations of a list holding each kind once plus a repeated type, each also with a .version manipulation of 0..4 (and every kind alone with each), since the list does not depend on the version number written; the effective list under a profile: every profile list of length 1..2 over 4 entries (two SAN forms, EKU, a custom extension with the SAN OID) x override x optional against every certificate list of length 0..3 over the same entries (quick thins the largest block to a quarter); every !binary payload length 1..4096 (quick) / 1..65536 (thorough) at ParseConfig->Builder->Compile level and 1..1100 / 1..4096 through whole certificates; unique ids, signature value, public-key bits, authority key id and addProfessionInfo at the boundary lengths. Oracle: same list, order, OIDs, critical exactly as configured (absent in DER when false/omitted), raw bodies byte-identical. non-trivial = distinct case (payload lengths distinct by construction)",
 		Bound:       map[string]string{"list length": "0..2 exhaustive, 12 by rotation", "payload length": "every length up to 4096 / 65536"},
 		Assumptions: []string{"payload contents are one deterministic pattern per length", "subjectKeyIdentifier content !binary may or may not be wrapped in an OCTET STRING (documentation and code disagree)"},
 		Budget:      budgets(quickBudget, thoroughBudget),
